@@ -342,9 +342,10 @@ class Attachment:
                  string=None, base_url=None, url_fetcher=default_url_fetcher,
                  name=None, description=None, created=None, modified=None,
                  relationship='Unspecified'):
-        self.source = _select_source(
-            guess, filename, url, file_obj, string, base_url=base_url,
-            url_fetcher=url_fetcher)
+        self._source = {
+            'guess': guess, 'filename': filename, 'url': url,
+            'file_obj': file_obj, 'string': string, 'base_url': base_url,
+            'url_fetcher': url_fetcher}
         self.name = name
         self.description = description
         self.relationship = relationship
@@ -368,6 +369,11 @@ class Attachment:
                 modified = now
         self.created = created
         self.modified = modified
+
+    @property
+    def source(self):
+        """Context manager giving the source, new for each use."""
+        return _select_source(**self._source)
 
 
 @contextlib.contextmanager
